@@ -7,6 +7,11 @@ CONSTANTS
   Frames = {"stored0", "deflate"}
   CloudCounts = {0, 1, 2}
   Profiles = {1, 2, 3, 4, 5}
+  EdgeCounts = {15}
+  FbLadder = {0, 1, 6, 7, 8, 9, 14, 15, 16, 17, 22, 23, 24, 25, 30, 31, 32, 33, 62, 63, 64, 65, 126, 127, 128, 129, 255}
+  Grans = {32768, 4096, 509}
+  LadderFrames = {"deflate"}
+  Deliveries = {0, 1, 7, 4096, 100001, 100013}
 SPECIFICATION Spec
-INVARIANTS Emit Tiles Ordered HalfLaw
+INVARIANTS Emit Tiles Ordered HalfLaw LadderLaw EdgeLaw
 CHECK_DEADLOCK FALSE
